@@ -399,7 +399,7 @@ func (s *Session) Run() (err error) {
 
 		switch s.getState() {
 		case WaitingLogon:
-			s.LogonSettings = &LogonSettings{
+			settings := &LogonSettings{
 				HeartBtInt:      incomingLogon.HeartBtInt(),
 				EncryptMethod:   incomingLogon.EncryptMethod(),
 				Password:        incomingLogon.Password(),
@@ -413,8 +413,13 @@ func (s *Session) Run() (err error) {
 			}
 
 			if s.side == sideAcceptor {
-				s.LogonSettings.TargetCompID, s.LogonSettings.SenderCompID = s.LogonSettings.SenderCompID, s.LogonSettings.TargetCompID
+				settings.TargetCompID, settings.SenderCompID = settings.SenderCompID, settings.TargetCompID
 			}
+
+			// senders read the settings under s.mu: publish the new ones under the same lock
+			s.mu.Lock()
+			s.LogonSettings = settings
+			s.mu.Unlock()
 
 			if ok, tag, reasonCode := s.checkLogonParams(incomingLogon); !ok {
 				s.sendWithErrorCheck(s.MakeReject(reasonCode, tag, incomingLogon.HeaderBuilder().MsgSeqNum()))
@@ -725,7 +730,11 @@ func (s *Session) Stop() (err error) {
 		return fmt.Errorf("sendWithErrorCheck logout request: %w", err)
 	}
 
-	delayTimer := time.AfterFunc(s.LogonSettings.CloseTimeout, func() {
+	s.mu.Lock()
+	closeTimeout := s.LogonSettings.CloseTimeout
+	s.mu.Unlock()
+
+	delayTimer := time.AfterFunc(closeTimeout, func() {
 		s.cancel()
 	})
 
